@@ -88,12 +88,6 @@ class SkipStageHandler(StabilizeHandler[SkipStage]):
 
             logger.info("Skipped stage %s (%s)", stage.name, stage.id)
 
-            if self.event_recorder:
-                self.set_event_context(stage.execution.id if stage.execution else "")
-                self.event_recorder.record_stage_skipped(
-                    stage, reason="Stage skipped", source_handler="SkipStageHandler"
-                )
-
             # Get downstream stages and parent info BEFORE transaction
             execution = stage.execution
             downstream_stages = self.repository.get_downstream_stages(execution.id, stage.ref_id)
@@ -102,6 +96,16 @@ class SkipStageHandler(StabilizeHandler[SkipStage]):
             # Atomic: store stage + push all downstream/parent messages together
             with self.repository.transaction(self.queue) as txn:
                 txn.store_stage(stage)
+
+                # Recorded INSIDE the transaction: the event joins the commit
+                # of the state it describes. Recorded before it, a crash or a
+                # lost version race left stage.skipped events (one per retry)
+                # for a stage that was never skipped.
+                if self.event_recorder:
+                    self.set_event_context(stage.execution.id if stage.execution else "")
+                    self.event_recorder.record_stage_skipped(
+                        stage, reason="Stage skipped", source_handler="SkipStageHandler"
+                    )
 
                 # Message deduplication
                 if message.message_id:
